@@ -1243,6 +1243,8 @@ def run(rep):
     from . import c06
     for i in range(12 if thorough else 2):
         found += c06.declared_vs_delivered(rep, rng, i, 'make', odd_names=(i % 2 == 1))
+    for i in range(8 if thorough else 2):
+        found += c06.goal_independence(rep, rng, i)
     rep.stage('system:configure->make->recorder', projects=rep.traces)
     if dis and not found:
         i, call, iv, mv = dis[0]
